@@ -341,8 +341,8 @@ func checkC11(c *Ctx, r *Report) {
 		}
 	}
 	// rmConn / addConn callers
-	r3.onlyIn("call rmConn", callPred("(*"+relT+").rmConn"), c.FnsOfPkg(relP), hc)
-	r3.onlyIn("call addConn", callPred("(*"+relT+").addConn"), c.FnsOfPkg(relP), hc)
+	r3.onlyCallers("call rmConn", []string{"(*"+relT+").rmConn"}, c.FnsOfPkg(relP), hc)
+	r3.onlyCallers("call addConn", []string{"(*"+relT+").addConn"}, c.FnsOfPkg(relP), hc)
 
 	// ---- R4 ---------------------------------------------------------------
 	r4 := r.Rule("C11-R4", "E1/E6", 5, "limited relays: unlimited copy only when no limit configured; limited copy through LimitReader(limit.Data); deadlines from limit.Duration")
